@@ -23,24 +23,21 @@ PARTS = HEAD + consts('LEAD_SIZE', 'INDEX_HEADER_SIZE', 'INDEX_ENTRY_SIZE', 'HEA
     Decl(SIGS, 'struct', 'SignatureHeaderBuilder'),
     Raw('''
 /// the signature header `SignatureHeaderBuilder::build` produces, as a function of the builder's
-/// state (uninterpreted; K:k_sighdr_digest checks on the real `build` that the digest is stored
-/// under RPMSIGTAG_SHA256 as a string - see axiom_built_sig_digest)
+/// state (a name for it; what it contains is proved on the verbatim `build` in unit c08_sigbuild)
 pub uninterp spec fn built_sig(sha256: Option<Seq<char>>, sigs: Seq<Seq<u8>>) -> Header<IndexSignatureTag>;
 pub open spec fn sigs_view(v: Seq<Vec<u8>>) -> Seq<Seq<u8>> { Seq::new(v.len(), |i: int| v[i]@) }
 pub open spec fn opt_view(o: Option<String>) -> Option<Seq<char>> { match o { Some(s) => Some(s@), None => None } }
-/// K:k_sighdr_digest (bounded): build() of a builder holding digest d and no signatures yields a
-/// well-formed header whose RPMSIGTAG_SHA256 entry is the string d and which has no signature tag.
-pub broadcast axiom fn axiom_built_sig_digest(d: Seq<char>, sigs: Seq<Seq<u8>>)
-    ensures #![trigger built_sig(Some(d), sigs)]
-        get_str(built_sig(Some(d), sigs), 273) == Some(d),
-        wf(built_sig(Some(d), sigs));
 /// R12: `&str::to_owned`
 #[verifier::external_body]
 pub fn str_to_owned(s: &str) -> (r: String) ensures r@ == s@ { s.to_owned() }
 impl SignatureHeaderBuilder {
+    /// proved in unit c08_sigbuild (V:SignatureHeaderBuilder::build, postcondition sig_header_ok):
+    /// the digest is stored under RPMSIGTAG_SHA256 (273) as a string and the header is well formed
     #[verifier::external_body]
     pub fn build(self) -> (r: Result<Header<IndexSignatureTag>, Error>)
         ensures r is Ok ==> r->Ok_0 == built_sig(opt_view(self.header_sha256), sigs_view(self.openpgp_signatures@)),
+            (r is Ok && self.header_sha256 is Some) ==> get_str(r->Ok_0, 273) == Some(self.header_sha256->0@),
+            r is Ok ==> wf(r->Ok_0),
             self.openpgp_signatures@.len() == 0 ==> r is Ok,
     { unimplemented!() }
 '''),
@@ -70,7 +67,6 @@ impl Package {
         r is Ok ==> get_str(final(self).metadata.signature, 273) == Some(header_digest(*final(self))),
         r is Err ==> final(self).metadata.signature == old(self).metadata.signature,''',
        prologue='''proof {
-            broadcast use axiom_built_sig_digest;
             assert forall|v: Seq<Vec<u8>>| v.len() == 0 implies #[trigger] sigs_view(v) == Seq::<Seq<u8>>::empty() by {
                 assert(sigs_view(v) =~= Seq::<Seq<u8>>::empty());
             }
@@ -91,7 +87,6 @@ impl Package {
             seq![signer.signed(ser_header(old(self).metadata.header), t)]),
         r is Ok ==> get_str(final(self).metadata.signature, 273) == Some(header_digest(*final(self))),
         r is Err ==> final(self).metadata.signature == old(self).metadata.signature,''',
-       prologue='proof { broadcast use axiom_built_sig_digest; }',
        before=[('let sig_header = SignatureHeaderBuilder::new()', '''let ghost hs = header_signature@;
         proof {
             assert forall|v: Seq<Vec<u8>>| v.len() == 0 implies sigs_view(#[trigger] v.push(header_signature)) == seq![hs] by {
@@ -117,7 +112,6 @@ impl PackageBuilder {
         r is Ok ==> get_str(r->Ok_0.metadata.signature, 273) == Some(header_digest(r->Ok_0)),
         r is Ok ==> r->Ok_0.metadata.signature == built_sig(Some(header_digest(r->Ok_0)), Seq::<Seq<u8>>::empty()),''',
        before=[('let (lead, header_idx_tag, content)', '''proof {
-            broadcast use axiom_built_sig_digest;
             assert forall|v: Seq<Vec<u8>>| v.len() == 0 implies #[trigger] sigs_view(v) == Seq::<Seq<u8>>::empty() by {
                 assert(sigs_view(v) =~= Seq::<Seq<u8>>::empty());
             }
